@@ -54,31 +54,54 @@ Qed.
 Lemma apply_lops_snoc ops o : apply_lops (ops ++ [o]) = apply_lop (apply_lops ops) o.
 Proof. unfold apply_lops. rewrite fold_left_app. reflexivity. Qed.
 
-Lemma merge_is_reference ops : nonzero_ops ops = true ->
-  eff_lim (st_of (apply_lops ops)) = ref_lim ops /\ eff_off (st_of (apply_lops ops)) = ref_off ops.
+Lemma lim_is_reference ops : nz (last_lim ops) = true ->
+  eff_lim (st_of (apply_lops ops)) = ref_lim ops.
 Proof.
-  induction ops as [|o ops IH] using rev_ind; intros Hnz; [split; reflexivity|].
-  unfold nonzero_ops in Hnz. rewrite forallb_app in Hnz. apply andb_prop in Hnz.
-  destruct Hnz as [Hnz Ho]. destruct (IH Hnz) as [IHl IHo]. cbn in Ho. rewrite andb_true_r in Ho.
-  rewrite apply_lops_snoc. unfold ref_lim, ref_off. rewrite !fold_left_app. cbn [fold_left].
-  fold (ref_lim ops). fold (ref_off ops).
-  destruct o as [n|n]; apply negb_true_iff, Z.eqb_neq in Ho.
-  - split; [|rewrite merge_limit_keeps_offset; exact IHo].
+  induction ops as [|o ops IH] using rev_ind; intros Hnz; [reflexivity|].
+  rewrite apply_lops_snoc. unfold ref_lim, last_lim in *. rewrite !fold_left_app in *. cbn [fold_left] in *.
+  destruct o as [n|n].
+  - cbn in Hnz. apply negb_true_iff, Z.eqb_neq in Hnz.
     destruct (0 <? n) eqn:E; [apply Z.ltb_lt in E | apply Z.ltb_ge in E].
     + unfold eff_lim. rewrite merge_limit_override by lia.
       replace (0 <=? n) with true by (symmetry; apply Z.leb_le; lia). reflexivity.
     + apply merge_limit_cancel. lia.
-  - split; [rewrite merge_offset_keeps_limit; exact IHl|].
+  - rewrite merge_offset_keeps_limit. apply IH. exact Hnz.
+Qed.
+
+Lemma off_is_reference ops : nz (last_off ops) = true ->
+  eff_off (st_of (apply_lops ops)) = ref_off ops.
+Proof.
+  induction ops as [|o ops IH] using rev_ind; intros Hnz; [reflexivity|].
+  rewrite apply_lops_snoc. unfold ref_off, last_off in *. rewrite !fold_left_app in *. cbn [fold_left] in *.
+  destruct o as [n|n].
+  - rewrite merge_limit_keeps_offset. apply IH. exact Hnz.
+  - cbn in Hnz. apply negb_true_iff, Z.eqb_neq in Hnz.
     destruct (0 <? n) eqn:E; [apply Z.ltb_lt in E | apply Z.ltb_ge in E].
     + apply merge_offset_override. lia.
     + apply merge_offset_cancel. lia.
+Qed.
+
+Lemma merge_is_reference ops : last_nonzero ops = true ->
+  eff_lim (st_of (apply_lops ops)) = ref_lim ops /\ eff_off (st_of (apply_lops ops)) = ref_off ops.
+Proof.
+  unfold last_nonzero. intros H. apply andb_prop in H. destruct H as [Hl Ho].
+  split; [apply lim_is_reference | apply off_is_reference]; assumption.
+Qed.
+
+Lemma nonzero_last ops : nonzero_ops ops = true -> last_nonzero ops = true.
+Proof.
+  unfold nonzero_ops, last_nonzero, last_lim, last_off.
+  induction ops as [|o ops IH] using rev_ind; intros H; [reflexivity|].
+  rewrite forallb_app in H. apply andb_prop in H. destruct H as [H Ho]. cbn in Ho. rewrite andb_true_r in Ho.
+  specialize (IH H). apply andb_prop in IH. destruct IH as [IHl IHo].
+  rewrite !fold_left_app. cbn [fold_left]. destruct o as [n|n]; cbn [nz]; rewrite ?Ho, ?IHl, ?IHo; reflexivity.
 Qed.
 
 Lemma window_ext {A} s1 s2 (l : list A) :
   eff_lim s1 = eff_lim s2 -> eff_off s1 = eff_off s2 -> window s1 l = window s2 l.
 Proof. unfold window. intros -> ->. reflexivity. Qed.
 
-Lemma find_is_reference tbl c o ops : nonzero_ops ops = true ->
+Lemma find_is_reference tbl c o ops : last_nonzero ops = true ->
   find tbl c o (st_of (apply_lops ops)) =
   let after := skipn (Z.to_nat (ref_off ops)) (ordered o (matches c tbl)) in
   match ref_lim ops with Some n => firstn (Z.to_nat n) after | None => after end.
